@@ -163,6 +163,17 @@ def check_dispatcher(ctx, rule: str, wakeups=True, consumers=True, reconnect=Non
         guarded = callgraph.broadly_guarded(f.node, next(c for c in K.calls if call_name(c) == work))
         ctx.ob(rule, f.qualname, guarded, "an exception of the target does not end the thread" if guarded else "an exception raised by the target ends the thread: nothing is received/dispatched afterwards", key="target-contained", where=f.where)
     if consumers:
+        # the dispatch queue is filled by the receiver thread, which is also the only writer to the link: a bounded queue
+        # lets it block in put() while the consumer waits for it to write a reply - nothing moves any more
+        made = [st for st in rules.func_stmts(repo.method("ProtocolDispatcher", "__init__", inherited=False).node)
+                if isinstance(st, (ast.Assign, ast.AnnAssign)) and dotted(st.targets[0] if isinstance(st, ast.Assign) else st.target) == "self._dispatch_queue" and isinstance(st.value, ast.Call)]
+        ctx.require(len(made) == 1, "ProtocolDispatcher.__init__: creation of the dispatch queue not found")
+        qc = made[0].value
+        size = qc.args[0] if qc.args else next((k.value for k in qc.keywords if k.arg == "maxsize"), None)
+        unbounded = (call_name(qc) or "").endswith("Queue") and (size is None or rules.literal(repo.method("ProtocolDispatcher", "__init__", inherited=False).node, size) in ((True, 0), (True, None)))
+        ctx.ob(rule, "ProtocolDispatcher.__init__", unbounded, "the dispatch queue is unbounded: the receiver thread never blocks handing a block on" if unbounded else
+               f"`{norm(qc)}` bounds the dispatch queue: during a burst the receiver thread blocks in put() while a handler on the dispatcher thread waits for that same thread to write its reply - "
+               "the rest of the burst is never handed on", key="queue-unbounded", where=repo.method("ProtocolDispatcher", "__init__", inherited=False).where)
         cfg = cfg_of(disp.node)
         gets = [n for n in cfg.real_nodes() if any(c in ("self._dispatch_queue.get", "self._dispatch_queue.get_nowait") for c in n.call_names())]
         K = next(n for n in cfg.real_nodes() if any(c == "self._dispatcher_target" for c in n.call_names()))
